@@ -136,6 +136,21 @@ def run(ctx):
                "no code removes the stored checkpoint group from the file",
                (f"{dels[0][0].ident} deletes the 'checkpoint' group of the file: a resumed run interrupted before its next checkpoint leaves a file with configuration and flow "
                 "but no checkpoint at all") if dels else "", disc="delete")
+    # who may create the checkpoint group: only the blob writer, which creates the dataset in the same breath.  A group made ahead of time (an eager
+    # "can I write here?" probe) leaves, after an interruption before the first cadence checkpoint, a file whose checkpoint group exists and is empty --
+    # a state the resume route has to treat as "no checkpoint" and a membership test on the group name does not
+    makers = []
+    for f_ in repo.all_functions():
+        if f_.name in ("dump_pickle_to_hdf", "dump_state"):
+            continue
+        for n_ in walk_no_nested(f_.node):
+            if isinstance(n_, ast.Call) and isinstance(n_.func, ast.Attribute) and n_.func.attr in ("require_group", "create_group") and n_.args \
+                    and isinstance(n_.args[0], ast.Constant) and n_.args[0].value in ck_names:
+                makers.append((f_, n_))
+    ctx.decide(not makers, "C12.blob", "package", loc_of(makers[0][0], makers[0][1]) if makers else "src/aspire",
+               "only the blob writer creates the checkpoint group (together with its dataset)",
+               (f"{makers[0][0].ident} creates the 'checkpoint' group without storing a payload in it: a run interrupted before its first checkpoint leaves a file with an empty checkpoint "
+                "group, which a reader that tests for the group and then opens the dataset cannot load") if makers else "", disc="maker")
     from .smcloop import forwarding_rule
     nf = forwarding_rule(ctx, "C12.route", ("checkpoint_callback", "checkpoint_every", "checkpoint_file_path"),
                          "with that sampler the checkpoint file / cadence / callback requested by the caller never reaches the SMC loop, so nothing (or only an in-memory copy) is checkpointed")
@@ -525,6 +540,9 @@ MUTANTS += [
       "buffer = self._checkpoint_buffer\n        buffer.seek(0)\n        pickle.dump(state, buffer, protocol=protocol or pickle.HIGHEST_PROTOCOL)\n        dump_pickle_to_hdf(buffer, h5_file, path=path, dsetname=dsetname)", "C12.buf",
       more=[("from ..utils import AspireFile, asarray, dump_state, track_calls", "from io import BytesIO\nfrom ..utils import AspireFile, asarray, dump_pickle_to_hdf, dump_state, track_calls"),
             ("self._last_checkpoint_bytes: bytes | None = None\n        if preconditioning_transform is None:", "self._last_checkpoint_bytes: bytes | None = None\n        self._checkpoint_buffer = BytesIO()\n        if preconditioning_transform is None:")]),
+]
+MUTANTS += [
+    M("checkpoint group created when the file callback is built", "src/aspire/samplers/base.py", "def _callback(state: dict) -> None:", "with AspireFile(file_path, \"a\") as h5_probe:\n            h5_probe.require_group(\"checkpoint\")\n\n        def _callback(state: dict) -> None:", "C12.blob"),
 ]
 NEUTRALS = [
     M("checkpoint pickled into a buffer created for it, then handed to the blob writer", "src/aspire/samplers/base.py", "dump_state(\n            state,\n            h5_file,\n            path=path,\n            dsetname=dsetname,\n            protocol=protocol or pickle.HIGHEST_PROTOCOL,\n        )",
